@@ -264,6 +264,9 @@ def run(ctx: Ctx):
     pmap(ctx, _work, [(s, n) for s in shards if s])
     pmap(ctx, _dump, [(25 if ctx.quick else 400,)] * 16)
     ctx.notes["decodable_definitions"] = len(keys)
+    # once more in a process whose local time zone lies west of Greenwich (dates and times must not depend on it)
+    from ..common import sub_pass
+    sub_pass(ctx, [], "tz-west", {"TZ": "PST8PDT"})
 
 
 def replay(ctx: Ctx, case):
